@@ -107,6 +107,14 @@ func guardedOps() []guardedOp {
 		}
 		o := fileOwner(p, fi, sel.X, 0)
 		if o == "" {
+			// a list handed to an unexported helper as a parameter: its owner is known at the call sites
+			if po := objOf(fi.Pkg.TypesInfo, sel.X); po != nil && !fi.Obj.Exported() {
+				for i, q := range paramObjs(fi) {
+					if q == po && i >= 0 {
+						return []string{fmt.Sprintf("@param:%d", i)}
+					}
+				}
+			}
 			return []string{"?owner-of " + exprPath(sel.X)}
 		}
 		return []string{o + ".m"}
@@ -367,7 +375,7 @@ func c06GuardedBy(p *Prog, r *Report, rule string) int {
 				okAll := cnt > 0
 				var missing []string
 				for _, lp := range op.Locks(p, fi, ev.Call) {
-					if !holdsMode(hs, lp, op.Mode) {
+					if !heldHereOrAtCallers(p, fi, hs, lp, op.Mode) {
 						okAll = false
 						missing = append(missing, op.Mode+"("+lp+")")
 					}
@@ -1082,4 +1090,53 @@ func translateLockPath(p *Prog, caller *FuncInfo, c *ast.CallExpr, callee *FuncI
 		return "", false
 	}
 	return "", false
+}
+
+// heldHereOrAtCallers: the lock path is held in the required mode at this point, or -- for "@param:i", the owner
+// of a version list the function received as its i-th parameter -- every call site of the function in its
+// package passes a list whose owning store is locked in that mode at the call.
+func heldHereOrAtCallers(p *Prog, fi *FuncInfo, hs []Held, lp, mode string) bool {
+	if !strings.HasPrefix(lp, "@param:") {
+		return holdsMode(hs, lp, mode)
+	}
+	idx := 0
+	fmt.Sscanf(lp, "@param:%d", &idx)
+	sites := 0
+	for _, k := range sortedFuncKeys(p) {
+		caller := p.Funcs[k]
+		if caller.Decl == nil || caller.Decl.Body == nil || caller.Pkg != fi.Pkg || caller == fi {
+			continue
+		}
+		var lr *LockResult
+		okAll := true
+		ast.Inspect(caller.Decl.Body, func(x ast.Node) bool {
+			c, ok := x.(*ast.CallExpr)
+			if !ok || !p.callIs(caller.Pkg, c, fi.Key) {
+				return true
+			}
+			sites++
+			arg := argExprs(c, fi)[idx]
+			if arg == nil {
+				okAll = false
+				return true
+			}
+			owner := fileOwner(p, caller, arg, 0)
+			if owner == "" {
+				okAll = false
+				return true
+			}
+			if lr == nil {
+				lr = p.LockFlow(caller, entryHeldFor(p, caller))
+			}
+			chs, n := mustHeldAny(lr, c)
+			if n == 0 || !holdsMode(chs, owner+".m", mode) {
+				okAll = false
+			}
+			return true
+		})
+		if !okAll {
+			return false
+		}
+	}
+	return sites > 0
 }
